@@ -18,7 +18,9 @@
 (* block boundary, and a pending match can only stem from a lazily         *)
 (* predicted literal; the reconstruction is bit exact (C02).               *)
 (***************************************************************************)
-EXTENDS Stream, Params, TLC, Json, IOUtils
+EXTENDS Stream, Params, HuffCalc, SequencesExt, TLC, Json, IOUtils
+
+D == INSTANCE Deflate
 
 Rec == ndJsonDeserialize(IOEnv.TRACE)
 
@@ -89,7 +91,22 @@ DoneEv == /\ IsEvent("Seg") /\ phase = "done" /\ Rec[l].m = "done" /\ Mirror(Rec
                   /\ IF IsLast THEN phase' = "end" /\ bi' = bi ELSE phase' = "block" /\ bi' = bi + 1
           /\ UNCHANGED <<base, ti, pos, lazyLit>>
 
+\* the symbol frequencies of a dynamic block (end of block counted once; length 258 is counted
+\* as symbol 285 whichever way it was spelled) and of its header's run-length items
+LitSymOf(t) == IF t[1] = 0 THEN t[2] ELSE 256 + D!LenIdx(t[2])
+LitFreq(toks) == FoldLeft(LAMBDA acc, t : [acc EXCEPT ![LitSymOf(t) + 1] = @ + 1],
+                          [i \in 1..286 |-> IF i = 257 THEN 1 ELSE 0], toks)
+DistFreq(toks) == FoldLeft(LAMBDA acc, t : IF t[1] = 0 THEN acc ELSE [acc EXCEPT ![D!DistIdx(t[3])] = @ + 1],
+                           [i \in 1..30 |-> 0], toks)
+TcFreq(items) == FoldLeft(LAMBDA acc, it : [acc EXCEPT ![(IF it[1] = 0 THEN it[2] ELSE it[1]) + 1] = @ + 1],
+                          [i \in 1..19 |-> 0], items)
+\* the predicted code lengths the corrections are relative to are the ones HuffCalc.tla computes
+PredictedLens(b) == /\ b.pl = HuffLens(LitFreq(b.toks), 15)
+                    /\ b.pd = HuffLens(DistFreq(b.toks), 15)
+                    /\ b.ptc = HuffLens(TcFreq(b.items), 7)
+
 TreeEv == /\ IsEvent("Seg") /\ phase = "tree" /\ Rec[l].m = "tree" /\ Mirror(Rec[l])
+          /\ PredictedLens(B)
           /\ Rec[l].eo = TreeOps(B) \o TrailerNow(pos)
           /\ IF IsLast THEN phase' = "end" /\ bi' = bi ELSE phase' = "block" /\ bi' = bi + 1
           /\ UNCHANGED <<base, ti, pos, lazyLit>>
